@@ -245,9 +245,10 @@ def run_headers(M):
     # unknown dialect names: one error at the header (line, indent+1); parsing continues in the default dialect
     for default in ("en", "fr", "no"):
         dspec = dialects.master()[default]
-        for name in ("zz", "en_US", "EN", "no-such", "fr-", "_", "en-"):
+        for name in ("zz", "en_US", "EN", "no-such", "fr-", "_", "en-") + (tuple(dialects.derived_unknown_names()) if default == "en" else ()):
             if name in dialects.master():
                 continue
+            M.count("unknown_names_checked")
             for ind in ("", "   "):
                 text = "%s#language: %s\n%s: f\n  %s: s\n" % (ind, name, dspec["feature"][0], dspec["scenario"][0])
                 o = parse(text, default)
